@@ -16,7 +16,8 @@
 (*        under a change of price unit x |-> a*x + b  (C14)                *)
 (*   cls  in {"exact","tau","tauvar","cond","none"}: comparison class      *)
 (*   den  the reference denominator whose size conditions the formula      *)
-(*        (C03/C07/C17), UNDEF when the kind has none                      *)
+(*        (C03/C07/C17): UNDEF when the step has none, <<0,1>> when it is  *)
+(*        zero (the formula is undefined there: C08's business)            *)
 (*   deg  the current window is degenerate in the sense of C08             *)
 (*   lo,hi  window (or history) minimum / maximum, for C09's mean bounds   *)
 (***************************************************************************)
@@ -65,11 +66,12 @@ PathLen(w) == FoldLeft(LAMBDA a, i : a + Abs(w[i + 1] - w[i]), 0, [i \in 1..(Len
 (* where they cannot (a spike such as 10^6 in the window) the value is OVF: no expectation.    *)
 MaxAbs(w) == FoldLeft(LAMBDA a, x : IMax(a, Abs(x)), 0, w)
 Mean(w)   == Norm(SumS(w), Len(w))
-WMean(w)  == IF Len(w) * Len(w) * MaxAbs(w) >= 1000000000 THEN OVF
+TooBig(w, lim) == MaxAbs(w) >= lim \div (Len(w) * Len(w))      \* Len^2 * MaxAbs >= lim, without overflowing
+WMean(w)  == IF TooBig(w, 1000000000) THEN OVF
              ELSE Norm(WSum(w), (Len(w) * (Len(w) + 1)) \div 2)     \* newest (last) heaviest
-PVar(w)   == IF Len(w) * MaxAbs(w) >= 46340 THEN OVF                 \* population variance
+PVar(w)   == IF MaxAbs(w) >= 46340 \div Len(w) THEN OVF                 \* population variance
              ELSE Norm(Len(w) * SumSq(w) - SumS(w) * SumS(w), Len(w) * Len(w))
-MADev(w)  == IF Len(w) * Len(w) * MaxAbs(w) >= 500000000 THEN OVF
+MADev(w)  == IF TooBig(w, 500000000) THEN OVF
              ELSE Norm(AbsDevSum(w), Len(w) * Len(w))
 
 ---------------------------------------------------------------------------
@@ -121,7 +123,7 @@ RefInit(kind, p) ==
       [] kind = "SLOW_STOCH" -> [wh |-> <<>>, wl |-> <<>>, e |-> EmaInit]
       [] kind = "KC"   -> [tr |-> TrInit, a |-> EmaInit, e |-> EmaInit, fl |-> FlatInit]
       [] kind = "CE"   -> [tr |-> TrInit, a |-> EmaInit, wh |-> <<>>, wl |-> <<>>, fl |-> FlatInit]
-      [] kind = "CCI"  -> [w |-> <<>>]
+      [] kind = "CCI"  -> [w |-> <<>>, b |-> <<>>]      \* w: 3 x typical prices, b: the (h, l, c) they came from
       [] kind = "MFI"  -> [w |-> <<>>, mx |-> 0]           \* w : <<tp3, v>> pairs, last n+1
       [] kind = "OBV"  -> [obv |-> 0, pc |-> 0, vmax |-> 0]
 
@@ -228,7 +230,7 @@ RefStep(kind, p, s, in) ==
         IN O([w |-> w],
              <<F("out", IF prev = 0 THEN UNDEF ELSE Norm(100 * (Cl(in) - prev), prev), "ratio",
                  IF Cl(in) = prev THEN "exact" ELSE "cond")>>,
-             IF prev = 0 THEN NoDen ELSE RI(prev), "level", AllEq(w), RZero, RZero)
+             RI(prev), "level", AllEq(w), RZero, RZero)
     [] kind = "ER" ->
         LET w == Push(s.w, Cl(in), p.n + 1)
             vol == PathLen(w)
@@ -236,7 +238,7 @@ RefStep(kind, p, s, in) ==
              <<F("out", IF Len(w) = 1 THEN (IF Cl(in) = 0 THEN UNDEF ELSE ROne)
                         ELSE IF vol = 0 THEN UNDEF ELSE Norm(Abs(Cl(in) - w[1]), vol), "ratio",
                  IF Len(w) = 1 THEN "exact" ELSE "cond")>>,
-             IF Len(w) = 1 \/ vol = 0 THEN NoDen ELSE RI(vol), "spread",
+             IF Len(w) = 1 THEN NoDen ELSE RI(vol), "spread",
              Len(w) > 1 /\ AllEq(w), RZero, ROne)
     [] kind = "KC" ->
         LET a == EmaStep(s.a, p.n, RI(TrVal(s.tr, in)))
@@ -257,15 +259,18 @@ RefStep(kind, p, s, in) ==
              RI(MinS(wl)), RI(MaxS(wh)))
     [] kind = "CCI" ->
         LET w == Push(s.w, Tp3(in), p.n)          \* 3 x typical price
+            b == Push(s.b, <<Hg(in), Lw(in), Cl(in)>>, p.n)
+            tie == \E i \in 2..Len(w) : w[i] = w[i - 1] /\ b[i] # b[i - 1]
             L == Len(w)
             \* (tp - sma) / (0.015 mad) = (L w_t - S)/(3L) / ( (3/200) devsum/(3 L^2) )
-            big == L * L * MaxAbs(w) >= 500000000
+            big == TooBig(w, 500000000)
             devsum == IF big THEN 1 ELSE AbsDevSum(w)    \* = 3 L sum |tp - mean|
             out == IF big THEN OVF ELSE IF devsum = 0 THEN RZero
                    ELSE RDiv(Norm(L * w[L] - SumS(w), 3 * L), RMul(<<3, 200>>, Norm(devsum, 3 * L * L)))
         \* a zero deviation is detected through rounded sums: exactly 0 is C08's claim, not C03's
-        IN O([w |-> w], <<F("out", out, "ratio", IF devsum = 0 THEN "neutral" ELSE "cond")>>,
-             IF big THEN OVF ELSE IF devsum = 0 THEN NoDen ELSE Norm(devsum, 3 * L * L), "spread", AllEq(w), RZero, RZero)
+        IN [O([w |-> w, b |-> b], <<F("out", out, "ratio", IF devsum = 0 THEN "neutral" ELSE "cond")>>,
+             IF big THEN OVF ELSE Norm(devsum, 3 * L * L), "spread", AllEq(w), RZero, RZero)
+            EXCEPT !.ts = tie]
     [] kind = "MFI" ->
         LET w == Push(s.w, <<Tp3(in), in.v, in.h, in.l, in.c>>, p.n + 1)
             L == Len(w)
@@ -278,7 +283,7 @@ RefStep(kind, p, s, in) ==
              <<F("out", IF L = 1 THEN RI(50) ELSE IF pos + neg = 0 THEN UNDEF ELSE RScale(100, Norm(pos, pos + neg)),
                  "ratio", IF L = 1 THEN "exact" ELSE "cond")>>,
              \* den / largest flow since reset: 1/c of the property
-             IF L = 1 \/ pos + neg = 0 THEN NoDen ELSE Norm(pos + neg, IMax(mx, 1)), "invc",
+             IF L = 1 THEN NoDen ELSE Norm(pos + neg, IMax(mx, 1)), "invc",
              L > 1 /\ pos + neg = 0, RZero, RI(100)) EXCEPT !.ts = tie]
     [] kind = "OBV" ->
         LET c == in.c
